@@ -314,6 +314,11 @@ class CCodeGenerator:
         if bits:
             mem = mem + (bits_to_bytes(bits),)
             bits.clear()
+
+        # Trailing padding up to the size of the struct:
+        filling = self.sizeof(typ) - self.mem_len(mem)
+        if filling > 0:
+            mem = mem + (bytes([0] * filling),)
         return mem
 
     def mem_len(self, mem):
